@@ -1,10 +1,25 @@
-"""Contract + loop invariants for codec::rle::rle_16_decompress (interleaved RLE, 16 bpp), used by units codec and codec16.
-The 11 `repeat!` call sites are expanded textually (rule R4), giving 2 loops each.
+"""Contract + loop invariants for codec::rle::rle_16_decompress (interleaved RLE, 16 bpp), used by unit codec16 (and by unit codec once it imports
+RLE16_SPECS + RLE16 from here).  The 11 `repeat!` call sites are expanded textually (rule R4), giving 2 loops each: 24 loops.
 
 Two layers:
-  * SAFETY (C08): bounds / termination / length preservation (invariants _COMMON, _OUTER, _COUNT, _repeat_inv);
-  * FUNCTIONAL CORRECTNESS (C09): RLE16_SPECS is a pixel-granular transcription of MS-RDPBCGR 2.2.9.1.1.3.1.2.4 / 3.1.9; the loops carry a ghost
-    decoded-pixel sequence `img` that is a prefix of the specification's result, one ghost step per executed pixel statement."""
+  * SAFETY (C08): bounds / termination / length preservation (invariants _COMMON, _OUTER, _COUNT, _repeat_inv), unchanged from the safety proof;
+  * FUNCTIONAL CORRECTNESS (C09): RLE16_SPECS holds a pixel-granular transcription of MS-RDPBCGR 2.2.9.1.1.3.1.2.4 / 3.1.9 (rle16_decode = fold of
+    rle16_parse / rle16_apply over the orders, rle16_pixel = one pixel) and the PROVED lemmas.  The body carries a ghost decoded-pixel sequence `img`:
+      - per order: the decoder's header / length / parameter extraction equals the model rle16_code_decode (claim) which lemma_rle16_decode proves equal to
+        the specification's order table for all 256 header bytes; the insert-fg-pel flag equals the specification's rule (claims);
+      - per executed pixel statement (100 of them after expansion): one call of lemma_rle16_pixel / lemma_rle16_fgbg_pixel: `img` grows by the
+        specification's pixel, the output row holds it (rle16_order_inv / rle16_row_inv, opaque bundles);
+      - per scanline: lemma_rle16_next_row; at the end lemma_rle16_final gives the closed form out[(height-1-rr)*width + c] == dec[rr*width + c].
+    Everything the solver does not need to see is OPAQUE in the body (spec functions, bundles, even the result clauses): the 24 loop queries only match atoms.
+    Ghost snapshots g_x, g_count, ... exist because atom arguments must match SYNTACTICALLY (an argument `x - 1` costs a theory-combination search per path).
+
+PROVED DOMAIN: every stream that is not rle16_excluded:
+  (a) zero-length MEGA_MEGA orders are excluded because the code DISAGREES with the specification there (findings: stale insert-fg-pel flag; 0xF5 00 00 accepted);
+  (b) FGBG-class orders of >= 8 pixels on bitmaps wider than 8 pixels are excluded because they may run through the 8-times unrolled FGBG loops (loops 11, 13):
+      6 continuing paths per statement with a conditional `read_u8()?`, 8 statements deep; Z3 enumerates the paths (no result after 10 min at rlimit 400 for any
+      formulation tried: generic step lemma, branch-local lemmas, guarded implications, assert-only).  These two loops are proved SAFE and proved to be
+      reachable only by excluded streams (invariant `dz || count < 8 || width <= 8`); the single-statement FGBG loops (12, 14) ARE proved functionally, so the
+      FGBG pixel statement, the mask reload and both SPECIAL_FGBG orders are covered for short orders / narrow bitmaps."""
 from vx.spec import *
 
 RLE = "src/codec/rle.rs"
@@ -319,7 +334,10 @@ pub proof fn lemma_rle16_rows_at(out: Seq<u16>, img: Seq<u16>, width: int, l: in
     if j > 0 {
         lemma_rle16_rows_at(out, img, width, l + width, b - width, (n - 1) as nat, j - 1, c);
         assert((j - 1) * width == j * width - width) by(nonlinear_arith);
+        assert(l + width + (j - 1) * width + c == l + j * width + c);
+        assert(b - width - (j - 1) * width + c == b - j * width + c);
     } else {
+        assert(j * width == 0) by(nonlinear_arith) requires j == 0;
         assert(out[l + c] == img[b + c]);
     }
 }
@@ -616,6 +634,19 @@ pub open spec fn rle16_frame_rows(n: int, width: int, height: int, old_out: Seq<
 pub open spec fn rle16_frame_tail(width: int, height: int, old_out: Seq<u16>, out: Seq<u16>) -> bool {
     forall|i: int| width * height <= i < out.len() ==> #[trigger] out[i] == old_out[i]
 }
+/// rle16_exact in the p / width, p % width form: decoded pixel number p is at out[(height - 1 - p / width) * width + p % width]
+pub proof fn lemma_rle16_exact_at(dec: Seq<u16>, width: int, height: int, out: Seq<u16>, p: int)
+    requires rle16_exact(dec, width, height, out), 0 <= p < dec.len(), width > 0
+    ensures 0 <= (height - 1 - p / width) * width + p % width < out.len(), out[(height - 1 - p / width) * width + p % width] == dec[p]
+{
+    reveal(rle16_exact);
+    let rr = p / width; let c = p % width;
+    vstd::arithmetic::div_mod::lemma_fundamental_div_mod(p, width);
+    assert(width * rr == rr * width) by(nonlinear_arith);
+    assert(0 <= rr) by(nonlinear_arith) requires 0 <= p, width > 0, rr == p / width;
+    assert(rle16_idx(width, height, rr, c) == (height - 1 - p / width) * width + p % width);
+    assert(rr * width + c < dec.len());
+}
 // ----- FGBG_IMAGE pixel statement: same step as lemma_rle16_pixel, with the code facts stated as GUARDED implications (one per path through
 // `mixmask <<= 1; if mixmask == 0 { mask = if fom_mask != 0 { fom_mask } else { read_u8()? }; mixmask = 1; }`).  The if-then-else form of
 // rle16_code_step makes the solver enumerate the 6^8 paths of the unrolled loops; the guarded form is discharged path-locally.
@@ -701,7 +732,7 @@ _COMMON = """
         input_cursor.pos() > p0,
 """
 
-# ---- functional layer.  Every clause is guarded by `dz ||` (dz = the stream has a zero-length MEGA_MEGA order: nothing is claimed then).
+# ---- functional layer.  Every clause is guarded by `dz ||` (dz = rle16_excluded(input@, width, 0): nothing is claimed then).
 # All specification functions are OPAQUE in the body (nothing unfolds in the 24 loop queries); the proof steps are lemma calls.
 # current row: `line` None = nothing decoded yet; Some(l) = rle16_row_inv + the completed rows (snapshot orow / imgrow taken when the row was started)
 _F_CURSOR = """
@@ -773,7 +804,6 @@ def _repeat_inv(site):
 """
     if with_e:
         s += "        e + width <= output@.len(),\n        dz || e == line->Some_0 + width,\n"
-    prev = ""
     if with_e:
         s += "        prevline == Some(e),\n"
     elif site in _NONE_SITES:
@@ -783,7 +813,7 @@ def _repeat_inv(site):
         x >= 1 || count > 0,
         """ + ("dz || count < 8 || width <= 8," if _SITE_KIND[site] == "FgBgImage" else "true,") + """
         dz || !insertmix,
-        dz || (po is Some && po->Some_0.kind is """ + _SITE_KIND[site] + prev + """ && """ + _ORDER_INV + """
+        dz || (po is Some && po->Some_0.kind is """ + _SITE_KIND[site] + """ && """ + _ORDER_INV + """
             && rle16_row_inv(output@, o0, orow, img, imgrow, width as int, top, line->Some_0 as int, x as int, base, prevline)),
     decreases
         width - x,
@@ -817,18 +847,25 @@ _ORDER_START = """let ghost st0 = RleState { img, fg: mix, last_bg: lastopcode =
 let ghost po = rle16_parse(input@, p0 as int);
 let ghost c10 = colour1; let ghost c20 = colour2; let ghost mask0 = mask;"""
 
-# header / parameters decoded: the variables equal the model rle16_code_decode, the lemma relates the model to the specification's order table
+# header / parameters decoded: the variables equal the model rle16_code_decode (claim), the lemma relates the model to the specification's order table
+_PRE_DECODED = """proof {
+    if !dz && line is Some { lemma_rle16_row_facts(output@, o0, orow, img, imgrow, width as int, top, line->Some_0 as int, x as int, base, prevline); }
+}"""
 _DECODED = """proof {
     if !dz {
-        if line is Some { lemma_rle16_row_facts(output@, o0, orow, img, imgrow, width as int, top, line->Some_0 as int, x as int, base, prevline); }
-        assert(rle16_code_decode(input@, p0 as int, st0.fg, c10, c20, mask0)
-            == Some(RleDec { opcode, count, pos: input_cursor.pos() as int, mix, colour1, colour2, fom_mask, mask }));
         lemma_rle16_decode(input@, width as nat, st0, p0 as int, c10, c20, mask0, insertmix);
         k = 0;
     }
     """ + _SNAP + """
 }"""
-# C09 claim: the insert-fg-pel flag is set exactly when the specification's rule applies
+# C09 claims (asserted BEFORE the lemma that turns them into the specification's terms, so that a defect fails the claim itself):
+#  - the decoder's opcode / count / offset / parameter extraction computes the model (which lemma_rle16_decode proves equal to the order table)
+_CLAIM_MODEL = ("proof { assert(rle16_code_decode(input@, p0 as int, st0.fg, c10, c20, mask0) "
+                "== Some(RleDec { opcode, count, pos: input_cursor.pos() as int, mix, colour1, colour2, fom_mask, mask })); }")
+#  - insert-fg-pel guard: the flag is set iff this order is a BG_RUN, the previous order was a BG_RUN, and the position is neither 0 nor the end of the
+#    first decoded scanline (img.len() = number of pixels decoded so far)
+_CLAIM_GUARD = ("proof { assert(dz || insertmix == (opcode == 0 && st0.last_bg && !(st0.img.len() == 0 || st0.img.len() == width))); }")
+#  - the same two facts in the specification's terms
 _CLAIM_INSERT = "proof { assert(dz || (po is Some ==> insertmix == rle16_insert(st0, width as nat, po->Some_0))); }"
 _CLAIM_HEADER = ("proof { assert(dz || (po is Some ==> opcode == rle16_opcode(po->Some_0.kind) && count == po->Some_0.len "
                  "&& input_cursor.pos() == po->Some_0.data)) by { reveal(rle16_order_inv); } }")
@@ -890,6 +927,7 @@ HINTS = [
     (r"count <<= 3;", 1, "proof { assert(count <= 31 ==> (count << 3u32) <= 0xffff) by(bit_vector); }", "before"),
     (r"line = Some\(height \* width\);", 1,
      "proof { assert(height * width + width <= width * h0) by(nonlinear_arith) requires height < h0; }", "before"),
+    (r"lastopcode = opcode;", 1, _PRE_DECODED, "after"),
     (r"mixmask = 0;", 1, _DECODED, "after"),
     (r"prevline = line;", 1, "let ghost pl_old = prevline;", "before"),
     (r"line = Some\(height \* width\);", 1, _ROW, "after"),
@@ -933,7 +971,9 @@ for _s in range(N_SITES):
             HINTS.append((r"x \+= 1;", 2 + 9 * _s + _j, _pixel(_SITE_VALUE[_s], _SITE_KIND[_s]), "after"))
 
 CLAIMS = [
-    (r"mixmask = 0;", 1, _CLAIM_INSERT, "after", "C09", "insert-fg-pel-guard"),
+    (r"lastopcode = opcode;", 1, _CLAIM_MODEL, "after", "C09", "order-header-length-decoding-model"),
+    (r"lastopcode = opcode;", 1, _CLAIM_GUARD, "after", "C09", "insert-fg-pel-guard"),
+    (r"mixmask = 0;", 1, _CLAIM_INSERT, "after", "C09", "insert-fg-pel-rule"),
     (r"mixmask = 0;", 1, _CLAIM_HEADER, "after", "C09", "order-header-length-decoding"),
 ]
 
